@@ -166,6 +166,50 @@ def parse_skel(toks):
     return skeleton(Parser(toks).parse())
 
 
+ATOM_NAMES = {"@l": "L", "@r": "R", "@a": "A", "@b": "B"}
+
+
+def rust_text(toks):
+    out = []
+    for t in toks:
+        if t.startswith("@"):
+            out.append(ATOM_NAMES.get(t, "O"))
+        else:
+            out.append(t)
+    return " ".join(out)
+
+
+def syn_batch(token_lists, log_dir):
+    """Parse every token sequence with `syn` (the parser the compiler itself runs on its output). -> [('OK', skeleton) | ('ERR', msg)]"""
+    import kani
+    os.makedirs(log_dir, exist_ok=True)
+    path = os.path.join(log_dir, "syn_batch.txt")
+    with open(path, "w") as f:
+        for toks in token_lists:
+            f.write(rust_text(toks) + "\n")
+    binp = kani.build_replay("dev", False, log_dir)
+    rc, out, _, to = common.run([binp, "synparse", path], timeout=300)
+    res = []
+    for line in out.strip().split("\n"):
+        if line.startswith("OK "):
+            res.append(("OK", line[3:].strip()))
+        elif line.startswith("ERR "):
+            res.append(("ERR", line[4:].strip()))
+    if len(res) != len(token_lists):
+        raise Inconclusive(f"syn batch returned {len(res)} results for {len(token_lists)} expressions")
+    return res
+
+
+def sk_text(sk):
+    """my skeleton tuples -> the text form printed by `replay synparse`"""
+    if isinstance(sk, str):
+        return ATOM_NAMES.get(sk, "O" if sk.startswith("@") else sk)
+    head = sk[0]
+    if head.startswith("un"):
+        return f"(un{head[2:]} {sk_text(sk[1])})"
+    return "(" + " ".join([head] + [sk_text(x) for x in sk[1:]]) + ")"
+
+
 def subst_atoms(sk, m):
     if isinstance(sk, str):
         return m.get(sk, sk)
@@ -244,73 +288,202 @@ def op_facts(o, term):
     return f[1] if f and f[0] == "eq" else None
 
 
+def sexpr(text):
+    """`(bin+ L (bin* R X))` -> ('bin+', 'L', ('bin*', 'R', 'X'))"""
+    toks = re.findall(r"\(|\)|[^\s()]+", text)
+    pos = 0
+
+    def rd():
+        nonlocal pos
+        t = toks[pos]
+        pos += 1
+        if t == "(":
+            out = []
+            while toks[pos] != ")":
+                out.append(rd())
+            pos += 1
+            return tuple(out)
+        return t
+    return rd()
+
+
+def sx_text(t):
+    return t if isinstance(t, str) else "(" + " ".join(sx_text(x) for x in t) + ")"
+
+
+def sx_subst(t, m):
+    if isinstance(t, str):
+        return m.get(t, t)
+    return tuple(sx_subst(x, m) for x in t)
+
+
+INFIX_TOK = {"Add": "+", "Sub": "-", "Mul": "*", "Eq": "==", "Ne": "!=", "Lt": "<", "Le": "<=", "Gt": ">", "Ge": ">=", "And": "&&", "Or": "||",
+             "BitAnd": "&", "BitOr": "|", "BitXor": "^", "Shl": "<<", "Shr": ">>"}
+
+
+def flat_expected_ok(opn, toks, sk_text_):
+    if opn in ("Div", "FloorDiv", "Mod"):
+        return re.match(r"^\(call:incan_stdlib::num::\w+ L R\)$", sk_text_) is not None
+    if opn == "Pow":
+        return sk_text_ in ("(method:pow L R)", "(method:powf L R)")
+    if toks[:4] == ["incan_stdlib", "::", "strings", "::"]:
+        return re.match(r"^\(call:incan_stdlib::strings::\w+ L R\)$", sk_text_) is not None
+    tok = INFIX_TOK.get(opn)
+    return tok is not None and sk_text_ == f"(bin{tok} L R)"
+
+
+def wrap_casts(toks):
+    """`( X ) as f64` -> `( ( X ) as f64 )` (the repair that would make a cast safe in any context)"""
+    out = []
+    i = 0
+    while i < len(toks):
+        if toks[i] == "(" and i + 4 < len(toks) and toks[i + 2] == ")" and toks[i + 3] == "as":
+            out += ["("] + toks[i:i + 5] + [")"]
+            i += 5
+        else:
+            out.append(toks[i])
+            i += 1
+    return out
+
+
+TYNAME = {"Int": "int", "Float": "float", "Bool": "bool", "String": "str"}
+
+
+def class_types(ex, o, l, r, R, mp):
+    td = R.resolve("TypedExpr")
+    i_ty = [x[0] for x in td.variants[0][1]].index("ty")
+    irt = mp.variants(R, "IrType")
+    out = []
+    for e in (l, r):
+        f = o.state.facts.get(e.child(None, i_ty).tag().term)
+        out.append(irt[f[1]] if f and f[0] == "eq" else None)
+    return out
+
+
+def native_flat(opn, lt, rt, log_dir):
+    """Compile `let x = a <op> b` through the real pipeline; -> (broken: bool|None, text)"""
+    import kani
+    iop = INCAN_OP.get(opn)
+    if iop is None or lt not in TYNAME or rt not in TYNAME:
+        return None, f"no surface program for {opn} on ({lt}, {rt})"
+    src = f"def f(a: {TYNAME[lt]}, b: {TYNAME[rt]}) -> None:\n    let x = a {iop} b\n"
+    path = os.path.join(log_dir, "flat_replay.incn")
+    with open(path, "w") as fh:
+        fh.write(src)
+    texts = []
+    broken = False
+    for prof in ("dev", "release"):
+        binp = kani.build_replay(prof, True, log_dir)
+        rc, out, _, to = common.run([binp, "emitrust", path], timeout=60)
+        if "CODEGEN-ERROR" in out:
+            broken = True
+            texts.append(f"[{prof}] `a {iop} b` with a: {TYNAME[lt]}, b: {TYNAME[rt]} type-checks but code generation fails on its own output: "
+                         + out.strip().splitlines()[-1][:160])
+            continue
+        if "REJECTED" in out or "ERROR" in out:
+            return None, f"program not accepted: {out.strip()[-160:]}"
+        m = re.search(r"let x(?:\s*:[^=]+)? = (.*?);", out, re.S)
+        if not m:
+            return None, f"no `let x` in the generated code: {out.strip()[-200:]}"
+        res = syn_batch([rust_tokens(m.group(1))], log_dir)[0]
+        ok = res[0] == "OK" and re.match(r"^\((bin\S+|call:\S+|method:\S+) a b\)$", res[1]) is not None
+        broken = broken or not ok
+        texts.append(f"[{prof}] emitted `{m.group(1).strip()}` -> {res}")
+    return broken, "; ".join(texts), src
+
+
 def run_flat(P, R, log_dir):
-    """Every path of emit_binop_expr emits `L' <form> R'` with the operands in order, each at most wrapped by the ToFloat
-    conversion, in the documented form for its operator class."""
+    """Every path of emit_binop_expr emits a Rust expression (as decided by syn) whose operator skeleton is <op>(left, right)
+    in the documented form."""
     import mirx_props as mp
     t0 = time.time()
     (ex, op, l, r, outs), _ = flat_runs(P, R)
     ops = mp.variants(R, IR_OP)
-    bad_paths = []
-    samples = []
     classes = {}
+    panics = []
     for o in outs:
         if o.kind != "return":
-            bad_paths.append((o, "emission panics / returns through an error path: " + str(o.info)))
+            panics.append(o)
             continue
         toks = tokens_of(ex, o)
-        if toks is None:
-            bad_paths.append((o, "does not return Ok(tokens)"))
-            continue
         k = op_facts(o, op.tag().term)
-        opn = ops[k] if k is not None else None
-        try:
-            sk = parse_skel(toks)
-        except ParseError as e:
-            bad_paths.append((o, f"emitted tokens `{' '.join(toks)}` are not a Rust expression: {e}"))
+        if toks is None or k is None:
+            panics.append(o)
             continue
-        ok = isinstance(sk, tuple) and len(sk) == 3 and sk[1] == "@l" and sk[2] == "@r"
-        form = sk[0] if isinstance(sk, tuple) else None
-        if ok and opn is not None:
-            want = {"Add": "bin+", "Sub": "bin-", "Mul": "bin*", "Eq": "bin==", "Ne": "bin!=", "Lt": "bin<", "Le": "bin<=", "Gt": "bin>",
-                    "Ge": "bin>=", "And": "bin&&", "Or": "bin||", "BitAnd": "bin&", "BitOr": "bin|", "BitXor": "bin^", "Shl": "bin<<",
-                    "Shr": "bin>>"}.get(opn)
-            if opn in ("Div", "FloorDiv", "Mod"):
-                ok = form.startswith("call:incan_stdlib::num::")
-            elif opn == "Pow":
-                ok = form in ("method:pow", "method:powf")
-            elif want is not None and not form.startswith("call:incan_stdlib::strings::"):
-                ok = form == want
-        if not ok:
-            bad_paths.append((o, f"operator {opn}: emitted `{' '.join(toks)}` (skeleton {sk}) is not `<left> {opn} <right>` in the documented form"))
-        classes.setdefault((opn, " ".join(toks)), o)
-        if len(samples) < 8 and opn in ("Mod", "Pow", "Lt", "Add"):
-            samples.append({"op": opn, "tokens": " ".join(toks)})
-    r = {"id": "E-emit-flat", "engine": "E2-X mirsmt",
-         "statement": "emit_binop_expr: on every path the emitted tokens are a Rust expression whose operator skeleton is "
-                      "<op>(left, right) with the operands in source order (each at most wrapped in the plan's `as f64` conversion / a deref), "
-                      "in the documented form: `/ // %` a call into incan_stdlib::num, `**` .pow/.powf, every other operator its Rust infix token",
-         "bound": f"all {len(ops)} BinOp x all IrType variants of both operands x all right-operand shapes; operand emission summarised as atoms",
-         "encoding": "enum tags as bounded Int; tokens as pushed strings; Rust precedence parser on the emitted tokens",
-         "functions_encoded": [n + " (MIR)" for n in ex.encoded], "paths": len(outs), "distinct_token_classes": len(classes),
-         "samples_tokens": samples}
+        classes.setdefault((ops[k], tuple(toks)), o)
+    keys = list(classes)
+    parsed = syn_batch([list(k[1]) for k in keys], log_dir)
+    failing = [(k, pr) for k, pr in zip(keys, parsed) if not (pr[0] == "OK" and flat_expected_ok(k[0], list(k[1]), pr[1]))]
+    repaired = syn_batch([wrap_casts(list(k[1])) for k, _ in failing], log_dir) if failing else []
+    known_cls, other = [], []
+    for (k, pr), rp in zip(failing, repaired):
+        # feasibility of the class (solver)
+        res = solver.check(mp.smt_lines(ex, [conj(classes[k].pc)]), [], "z3", 60)
+        if res.status != "sat":
+            continue
+        rec = {"op": k[0], "emitted": rust_text(list(k[1])), "syn": f"{pr[0]} {pr[1]}"}
+        if rp[0] == "OK" and flat_expected_ok(k[0], list(k[1]), rp[1]):
+            known_cls.append((k, rec))
+        else:
+            other.append((k, rec))
+    r = {"id": "E-emit-flat", "engine": "E2-X mirsmt + syn",
+         "statement": "emit_binop_expr: on every path the emitted tokens are a Rust expression (as decided by syn, the parser the compiler runs "
+                      "on its own output) whose operator skeleton is <op>(left, right) with the operands in source order (each at most wrapped "
+                      "in the plan's `as f64` conversion / a deref), in the documented form: `/ // %` a call into incan_stdlib::num, `**` "
+                      ".pow/.powf, every other operator its Rust infix token; no path panics",
+         "bound": f"all {len(ops)} BinOp x all IrType variants of both operands x all right-operand shapes; operand emission summarised as atoms; "
+                  f"{len(outs)} paths, {len(keys)} distinct token classes",
+         "encoding": "enum tags as bounded Int; tokens as pushed strings",
+         "functions_encoded": [n + " (MIR)" for n in ex.encoded], "paths": len(outs), "distinct_token_classes": len(keys),
+         "cast_tail_classes": [x[1] for x in known_cls][:6], "other_failing_classes": [x[1] for x in other][:6]}
     base = os.path.join(log_dir, "E-emit-flat")
     vac, _ = mp.query(ex, [disj([conj(o.pc) for o in outs if o.kind == "return"])], [], base + ".vac")
     if vac.status != "sat":
         r.update(status="inconclusive", reason=f"vacuity twin {vac.status}", wall_s=round(time.time() - t0, 2))
         return r
     r["vacuity_ok"] = True
-    if not bad_paths:
-        r.update(status="held", solver="all paths conform (no path left to refute)", wall_s=round(time.time() - t0, 2))
-        return r
-    res, _ = mp.query(ex, [disj([conj(o.pc) for o, _ in bad_paths])], mp.tag_names(ex), base)
-    r["solver"] = f"z3: {res.status} in {res.wall:.2f} s"
+    if panics:
+        res, _ = mp.query(ex, [disj([conj(o.pc) for o in panics])], mp.tag_names(ex), base)
+        if res.status != "unsat":
+            r.update(status="inconclusive", wall_s=round(time.time() - t0, 2),
+                     reason=f"a feasible path of emit_binop_expr panics or returns an error ({panics[0].info}); no native replay for this case")
+            return r
     r["wall_s"] = round(time.time() - t0, 2)
-    if res.status == "unsat":
-        r["status"] = "held"
+    kfs = [k for k in common.load_known_findings().get("findings", []) if k.get("property") == "C01" and k.get("obligation") == "E-emit-flat"]
+
+    def report(k, rec, what):
+        lt, rt = class_types(ex, classes[k], l, r, R, mp)
+        got = native_flat(k[0], lt, rt, log_dir)
+        broken, text = got[0], got[1]
+        r["native"] = text
+        if broken:
+            os.makedirs(os.path.join(common.REPLAYS_DIR, "MIRX"), exist_ok=True)
+            rp = os.path.join(common.REPLAYS_DIR, "MIRX", "E-emit-flat.replay")
+            with open(rp, "w") as fh:
+                fh.write(f"mirx flat {k[0]} {lt} {rt}\n# {what}: {rec}\n# {text}\n")
+            r.update(status="violated", replay=rp, counterexample={"class": rec, "native": text})
+        else:
+            r.update(status="inconclusive", reason=f"{what} {rec} does not reproduce through the real pipeline: {text}")
         return r
-    r.update(status="inconclusive", reason="a feasible path emits non-conforming tokens: " + bad_paths[0][1] +
-             " (no native replay for this obligation yet)")
+    if other:
+        return report(other[0][0], other[0][1], "emitted tokens are not the documented expression")
+    if known_cls:
+        if not kfs:
+            return report(known_cls[0][0], known_cls[0][1], "an `as f64` conversion is followed by a token that cannot follow a cast")
+        kf = kfs[0]
+        w = kf["witness"]
+        broken, text, _ = native_flat(w["op"], w["left"], w["right"], log_dir)
+        r["witness"] = text
+        if broken:
+            r.update(status="known-finding", finding=f"obligation=E-emit-flat {kf['what']} ({len(known_cls)} token classes, all repaired by "
+                     f"parenthesising the cast; witness: {text[:200]})")
+        else:
+            r.update(status="inconclusive", reason=f"stored known-finding witness no longer reproduces ({text})")
+        return r
+    if kfs:
+        r.update(status="inconclusive", reason="known_findings.json lists a cast-tail finding but no class fails any more: remove the stale entry")
+        return r
+    r.update(status="held", solver="every token class parses (syn) to the documented skeleton")
     return r
 
 
@@ -324,98 +497,77 @@ def run_grouping(P, R, log_dir):
     (exb, op, l, r, outs_b), (exu, e, kind, outs_u) = flat_runs(P, R)
     ops = mp.variants(R, IR_OP)
     uops = mp.variants(R, "ir::expr::UnaryOp")
-    # path classes: (description, tokens, skeleton, feasibility condition)
-    bin_cls = {}
+    bin_raw, un_raw = {}, {}
     for o in outs_b:
         if o.kind != "return":
             continue
         toks = tokens_of(exb, o)
         k = op_facts(o, op.tag().term)
-        if toks is None or k is None:
-            continue
-        try:
-            sk = parse_skel(toks)
-        except ParseError:
-            continue
-        bin_cls.setdefault((ops[k], tuple(toks)), (sk, o))
-    un_cls = {}
+        if toks is not None and k is not None:
+            bin_raw.setdefault((ops[k], tuple(toks)), o)
     uop = kind.child("UnaryOp", 0)
     for o in outs_u:
         if o.kind != "return":
             continue
         toks = tokens_of(exu, o)
         k = op_facts(o, uop.tag().term)
-        if toks is None or k is None:
-            continue
-        try:
-            sk = parse_skel(toks)
-        except ParseError:
-            continue
-        un_cls.setdefault((uops[k], tuple(toks)), (sk, o))
-    # feasibility witnesses (solver): every class used below is reachable
-    base = os.path.join(log_dir, "G-grouping")
+        if toks is not None and k is not None:
+            un_raw.setdefault((uops[k], tuple(toks)), o)
     nq = 0
-    for (name, toks), (sk, o) in list(bin_cls.items()):
-        res = solver.check(mp.smt_lines(exb, [conj(o.pc)]), [], "z3", 60)
-        nq += 1
-        if res.status != "sat":
-            del bin_cls[(name, toks)]
-    for (name, toks), (sk, o) in list(un_cls.items()):
-        res = solver.check(mp.smt_lines(exu, [conj(o.pc)]), [], "z3", 60)
-        nq += 1
-        if res.status != "sat":
-            del un_cls[(name, toks)]
-    outer = []   # (label, tokens, hole atom, expected skeleton builder)
-    for (name, toks), (sk, o) in bin_cls.items():
-        outer.append((f"{name}:left", list(toks), "@l", sk))
-        outer.append((f"{name}:right", list(toks), "@r", sk))
-    for (name, toks), (sk, o) in un_cls.items():
+    for d, ex_ in ((bin_raw, exb), (un_raw, exu)):
+        for key in list(d):
+            res = solver.check(mp.smt_lines(ex_, [conj(d[key].pc)]), [], "z3", 60)
+            nq += 1
+            if res.status != "sat":
+                del d[key]
+    bkeys, ukeys = list(bin_raw), list(un_raw)
+    parsed = syn_batch([list(k[1]) for k in bkeys] + [list(k[1]) for k in ukeys], log_dir)
+    bin_cls = {k: sexpr(p[1]) for k, p in zip(bkeys, parsed[:len(bkeys)]) if p[0] == "OK"}
+    un_cls = {k: sexpr(p[1]) for k, p in zip(ukeys, parsed[len(bkeys):]) if p[0] == "OK"}
+    outer = []
+    for (name, toks), sk in bin_cls.items():
+        outer.append((f"{name}:left", list(toks), "@l", "L", sk))
+        outer.append((f"{name}:right", list(toks), "@r", "R", sk))
+    for (name, toks), sk in un_cls.items():
         hole = [t for t in toks if t.startswith("@")]
         if len(hole) == 1:
-            outer.append((f"unary {name}", list(toks), hole[0], sk))
-    inner = [(name, [("@a" if t == "@l" else "@b" if t == "@r" else t) for t in toks], subst_atoms(sk, {"@l": "@a", "@r": "@b"}))
-             for (name, toks), (sk, o) in bin_cls.items()]
-    mism_known, mism_other, total = [], [], 0
-    for olabel, otoks, hole, osk in outer:
+            outer.append((f"unary {name}", list(toks), hole[0], "O", sk))
+    inner = [(name, [("@a" if t == "@l" else "@b" if t == "@r" else t) for t in toks], sx_subst(sk, {"L": "A", "R": "B"}))
+             for (name, toks), sk in bin_cls.items()]
+    comps, fixes, wants, labels = [], [], [], []
+    for olabel, otoks, hole, hname, osk in outer:
         for iname, itoks, isk in inner:
-            total += 1
-            composed = []
+            c, f = [], []
             for t in otoks:
-                composed += itoks if t == hole else [t]
-            want = subst_atoms(osk, {hole: isk})
-            try:
-                got = parse_skel(composed)
-            except ParseError as pe:
-                got = ("<parse error>", str(pe))
-            if got == want:
-                continue
-            # would parentheses around the spliced operand repair it?  (then it is the recorded "missing parentheses" class)
-            fixed = []
-            for t in otoks:
-                fixed += (["("] + itoks + [")"]) if t == hole else [t]
-            try:
-                repaired = parse_skel(fixed) == want
-            except ParseError:
-                repaired = False
-            rec = {"outer": olabel, "inner": iname, "emitted": " ".join(composed), "means": str(got), "should_mean": str(want)}
-            (mism_known if repaired else mism_other).append(rec)
+                c += itoks if t == hole else [t]
+                f += (["("] + itoks + [")"]) if t == hole else [t]
+            comps.append(c)
+            fixes.append(f)
+            wants.append(sx_text(sx_subst(osk, {hname: isk})))
+            labels.append((olabel, iname))
+    got = syn_batch(comps, log_dir)
+    bad_idx = [i for i, g in enumerate(got) if not (g[0] == "OK" and g[1] == wants[i])]
+    fixed = syn_batch([fixes[i] for i in bad_idx], log_dir) if bad_idx else []
+    mism_known, mism_other = [], []
+    for i, fx in zip(bad_idx, fixed):
+        rec = {"outer": labels[i][0], "inner": labels[i][1], "emitted": rust_text(comps[i]), "means": f"{got[i][0]} {got[i][1]}", "should_mean": wants[i]}
+        (mism_known if (fx[0] == "OK" and fx[1] == wants[i]) else mism_other).append(rec)
+    total = len(comps)
     kfs = [k for k in common.load_known_findings().get("findings", []) if k.get("property") == "C01" and k.get("obligation") == "G-grouping"]
-    r = {"id": "G-grouping", "engine": "E2-X mirsmt + Rust precedence parser",
+    r = {"id": "G-grouping", "engine": "E2-X mirsmt + syn",
          "statement": "when an operand of a binary or unary operator expression is itself a binary operator expression, the emitted Rust "
                       "tokens group exactly as the IR tree does (the source's parentheses / precedence are preserved)",
          "bound": f"{len(outer)} outer operator forms (every feasible emit_binop_expr path class x left/right hole, every unary form) x "
                   f"{len(inner)} inner binary forms = {total} compositions; nesting depth 2; operand leaves are atoms",
-         "encoding": "path classes from symbolic execution (feasibility of each decided by z3); composition by verbatim splicing",
+         "encoding": "path classes from symbolic execution (feasibility of each decided by z3); composition by verbatim splicing; parsing by syn",
          "functions_encoded": [n + " (MIR)" for n in exb.encoded + exu.encoded], "queries": nq,
          "compositions": total, "mismatch_missing_parentheses": len(mism_known), "mismatch_other": len(mism_other),
          "samples_mismatch": (mism_known[:3] + mism_other[:3]), "wall_s": round(time.time() - t0, 2), "vacuity_ok": total > 0}
     if mism_other:
-        w = mism_other[0]
-        return finish_grouping(r, w, log_dir, known=False)
+        return finish_grouping(r, mism_other[0], log_dir, known=False)
     if mism_known:
         if not kfs:
             return finish_grouping(r, mism_known[0], log_dir, known=False)
-        # recorded finding: the stored witness must still reproduce natively
         kf = kfs[0]
         ok, text = native_grouping(kf["witness"]["source"], kf["witness"]["fn"], kf["witness"]["should_group_as"], log_dir)
         r["witness"] = text
@@ -461,13 +613,16 @@ def native_grouping(source, fn, should, log_dir):
         if not m:
             return None, f"no generated body for {fn}: {out.strip()[-200:]}"
         expr = m.group(1).strip()
-        try:
-            got = parse_skel(rust_tokens(expr))
-            want = parse_skel(rust_tokens(should))
-        except ParseError as pe:
-            return None, f"cannot parse `{expr}`: {pe}"
+        pg, pw = syn_batch([rust_tokens(expr), rust_tokens(should)], log_dir)
+        if pw[0] != "OK":
+            return None, f"cannot parse the expected grouping `{should}`"
+        if pg[0] != "OK":
+            verdicts.append(False)
+            text = f"emitted `{expr}`, which is not a Rust expression ({pg[1]})"
+            continue
+        got, want = sexpr(pg[1]), sexpr(pw[1])
         verdicts.append(normalise(got) == normalise(want))
-        text = f"emitted `{expr}`, which groups as {got}; the source groups as {want}"
+        text = f"emitted `{expr}`, which groups as {pg[1]}; the source groups as {pw[1]}"
     return all(verdicts), text
 
 
@@ -475,7 +630,8 @@ def normalise(sk):
     """helper calls and infix forms of the same operator are both fine; compare nesting + atom order only"""
     if isinstance(sk, str):
         return sk
-    return ("op",) + tuple(normalise(x) for x in sk[1:])
+    head = "un" if str(sk[0]).startswith("un") else "op"
+    return (head,) + tuple(normalise(x) for x in sk[1:])
 
 
 def finish_grouping(r, w, log_dir, known):
